@@ -21,7 +21,11 @@
       `fatal: error parsing project toml: <exc>` and `sys.exit(1)`; otherwise re-raises) in
       `parseArguments`.
 
-  Fragment (what is trusted rather than modelled): argparse's tokeniser on non-canonical tokens —
+  NOTE: argparse's tokeniser is modelled in `RattrModel/Argv.lean` (`parseArgumentsX`, the function
+  the driver runs); it coincides with `parseArguments` below on the canonical fragment
+  (`C20_argv_refines_parse_arguments`).  What follows describes THIS file's `lex`/`run`/`parse`.
+
+  Fragment (what is trusted rather than modelled HERE): argparse's tokeniser on non-canonical tokens —
   abbreviations (`--thresh`), `=`-joined values, clumped short flags (`-HT`), `--`, dash-words with
   spaces; and the codec between a token's text and an integer (`str(int)` / `int(str)`): a text is
   either the canonical decimal of an integer (`Text.num`) or a word that `int()` rejects
@@ -135,6 +139,8 @@ inductive ArgErr where
   | unrecognized
   | versionExit
   | unsupported
+  | ignoredExplicitArgument (dest : Str)   -- `--strict=1`, `-Hz`: "ignored explicit argument" (RattrModel/Argv.lean)
+  | ambiguousOption                        -- `--c`: "ambiguous option: … could match …" (RattrModel/Argv.lean)
   deriving DecidableEq, Repr
 
 /-- `_get_value`: apply the `type=` callable. -/
